@@ -24,8 +24,12 @@ PAIRS = [
     (">=0.1.0, <1.0.0", "0.5.0", T), (">=0.1.0, <1.0.0", "1.0.0", F), (">=0.1.0, <1.0.0", "0.0.9", F), (">=1.2.0, <1.5.0", "1.4.9", T),
     ("^1.2.0", "1.3.0-rc.1", F), ("1.0.0-alpha", "1.0.0-alpha.1", T), ("1.0.0-alpha", "1.0.0", T), ("1.0.0-beta", "1.0.0-alpha", F),
     ("^1.0.0", "1.0.0-alpha", F), (">=1.0.0-alpha", "1.0.1-beta", F),
+    # the configured version is a PRERELEASE (it only satisfies comparators that name a prerelease of the same major.minor.patch) or carries build metadata
+    ("=1.2.3-beta.1", "1.2.3-beta.1", T), ("<1.2.3-rc.1", "1.2.3-beta.1", T), (">=1.2.3-beta.2", "1.2.3-beta.1", F), ("~1.2", "1.2.3-beta.1", F),
+    (">=1.0.0", "1.0.0-rc.1", F), ("^1.2.3-alpha", "1.2.3-beta.1", T), ("=1.2.3", "1.2.3+build.5", T), ("^1.2.3", "1.2.4+exp.sha.5114f85", T),
 ]
-QUICK_PAIRS = [p for i, p in enumerate(PAIRS) if i % 3 == 0 or p[0] in ("^1.2.0", "0.2.2", "0.1.0")]
+PRE = {p for p in PAIRS if "-" in p[1] or "+" in p[1]}
+QUICK_PAIRS = [p for i, p in enumerate(PAIRS) if i % 3 == 0 or p[0] in ("^1.2.0", "0.2.2", "0.1.0") or p in PRE]
 CRATE = "ext-crate"
 IDENT = "ext_crate"
 CFGS = ["absent", "any", "never", "version"]
